@@ -796,6 +796,7 @@ def apply_op(ctx, st, op, prop):
         # very range (set on its own earlier) may legitimately short-circuit
         if "range" in op:
             st.member_same = {a for a, (r_, k_) in st.member.items() if tuple(r_) == tuple(op["range"])}
+        st.member_at_entry = dict(st.member)
         st.member = {}
     if name == "update_peaks":
         r = range_arg(op)
@@ -1584,6 +1585,12 @@ def prepare_c06(ctx, st, which, op):
     # twins (built before the call, from the pre-call state); large sets are judged by the refinement alone
     pre["twins"] = []
     if max(len(a) for a in amps) > 16:
+        return pre
+    if which == "az" and getattr(st, "member_at_entry", None):
+        # one azimuth was searched on its own before this call: the twins are built with all azimuths in step and would
+        # not start from the same state; the refinement against the published algorithm (from the object's real entry
+        # state) is the judge here
+        ctx.probe("c06_member_out_of_step_at_entry")
         return pre
     r = rng_for(int(sha_array(st.amps[0])[:8], 16) ^ (ctx.ops_done * 7919))
     perms = [np.array(r.sample(range(len(a)), len(a))) for a in amps]
